@@ -10,19 +10,19 @@ ASSUMPTIONS = [
     '-DNDEBUG build (the line solvers\' tolerance asserts on pivots are premises)',
 ]
 OUTSIDE = ['shapes other than listed', 'energy non-increase beyond the 5x4 grid', 'ntheta not divisible by 4 (not admissible)']
-BOUNDS = {'quick': 'S2: (5,4,2) (6,4,3) (7,8,3) (9,8,auto) x both modes x both strategies x T in {1,2}; energy: (5,4,2) Dirichlet',
+BOUNDS = {'quick': 'S2: (5,4,2) (6,4,3) (7,8,3) (9,8,auto) (7,12,3) x both modes x both strategies x T in {1,2}; energy: (5,4,2) Dirichlet',
           'thorough': 'S2 + (8,8,4) (9,8,5) (9,16,auto) (7,12,3), 2 variants; energy both modes, 3 variants'}
 
 
 def jobs(tier, seed):
     J = []
     q = tier == 'quick'
-    shapes = [(5, 4, 2), (6, 4, 3), (7, 8, 3), (9, 8, -1)] if q else [(5, 4, 2), (6, 4, 3), (7, 8, 3), (8, 8, 4), (9, 8, -1), (9, 8, 5), (7, 12, 3), (9, 16, -1)]
+    shapes = [(5, 4, 2), (6, 4, 3), (7, 8, 3), (9, 8, -1), (7, 12, 3)] if q else [(5, 4, 2), (6, 4, 3), (7, 8, 3), (8, 8, 4), (9, 8, -1), (9, 8, 5), (7, 12, 3), (9, 16, -1)]
     for (nr, nt, nC) in shapes:
         for dirbc in (0, 1):
             for strat in (0, 1):
                 for T in (1, 2):
-                    if q and T == 2 and strat == 0 and nr > 6:
+                    if q and T == 2 and strat == 0 and nr > 6 and nt != 12:
                         continue
                     for v in ((0,) if q else (0, 1)):
                         J.append(dict(entry='h_sweep', args=[nr, nt, nC, dirbc, strat, T, 0, v], label=f'sweep {nr}x{nt} nC={nC} dirbc={dirbc} strategy={strat} T={T} v={v}',
